@@ -36,7 +36,8 @@ def enabled(events, maxnest, rich=True, comments=True, flow=True, tests=True, cl
         if tests:
             out += [{"k": "ct_add_test", "doc": d} for d in docs]
             if rich:
-                out += [{"k": "ct_add_test", "doc": 0, "impl": "macro", "expectfail": 1}]
+                out += [{"k": "ct_add_test", "doc": 0, "impl": "macro", "expectfail": 1},
+                        {"k": "ct_add_test", "doc": 1, "name": "parse-args.v2"}]     # a name that is no identifier
         if classes and inner == "cpp_class":
             out += [{"k": "cpp_member", "doc": d, "types": ["int", "str"], "params": ["a", "b"]} for d in docs]
             out += [{"k": "cpp_constructor", "doc": d, "types": ["int"], "params": ["x"]} for d in docs]
